@@ -281,11 +281,19 @@ Proof.
   destruct o as [e|]; [|by apply bool_decide_eq_true in H2]. intros w ->. change (as_id (cid w)) with (Some w) in H2. by apply bool_decide_eq_true in H2.
 Qed.
 Lemma bb_ok_out g' inst d ps p o : bb_ok g' (inst, d, ps) = true → NoDup ps.*1 → p ∈ bb_out d → (p, o) ∈ ps →
-  match o with Some e => ∀ w, e = cid w → fanout g' (pin inst p) = {[w]} | None => fanout g' (pin inst p) = ∅ end.
+  ty g' (pin inst p) = Some BbOut ∧
+  match o with Some e => ∀ w, e = cid w → fanout g' (pin inst p) = {[w]} ∧ ty g' w = Some Buf ∧ fanin g' w = {[pin inst p]} | None => fanout g' (pin inst p) = ∅ end.
 Proof.
   intros Hok Hnd Hp Hin. unfold bb_ok in Hok. apply andb_true_iff in Hok as [_ Hok]. rewrite forallb_forall in Hok. specialize (Hok p). cbv beta in Hok.
-  rewrite (find_key ps p o Hnd Hin) in Hok. specialize (Hok ltac:(by apply elem_of_list_In, elem_of_elements)). apply andb_true_iff in Hok as [_ H2].
-  destruct o as [e|]; [|by apply bool_decide_eq_true in H2]. intros w ->. change (as_id (cid w)) with (Some w) in H2. apply andb_true_iff in H2 as [H2 _]. apply andb_true_iff in H2 as [H2 _]. by apply bool_decide_eq_true in H2.
+  rewrite (find_key ps p o Hnd Hin) in Hok. specialize (Hok ltac:(by apply elem_of_list_In, elem_of_elements)). apply andb_true_iff in Hok as [H1 H2]. apply andb_true_iff in H1 as [H1 _]. apply bool_decide_eq_true in H1.
+  split; [done|]. destruct o as [e|]; [|by apply bool_decide_eq_true in H2]. intros w ->. change (as_id (cid w)) with (Some w) in H2. apply andb_true_iff in H2 as [H2 H3]. apply andb_true_iff in H2 as [H2 H4].
+  apply bool_decide_eq_true in H2, H3, H4. done.
+Qed.
+Lemma buf_val c w q n : consistent c w → ty c q = Some Buf → fanin c q = {[n]} → w q = w n.
+Proof.
+  intros Hw Ht Hf. unfold ty, fanin in *. destruct (c !! q) as [i|] eqn:Ei; [|discriminate]. simpl in *. injection Ht as Ht. specialize (Hw q i Ei).
+  unfold node_ok, is_free in Hw. rewrite Ht, Hf in Hw. rewrite bool_decide_eq_false_2 in Hw by (intros E; assert (n ∈ (∅ : gset string)) by (rewrite <- E; by apply elem_of_singleton); by apply elem_of_empty in H).
+  rewrite Hw, gv_buf. done.
 Qed.
 Lemma pin_val c w p d : consistent c w → ty c p = Some BbIn → fanin c p = {[d]} → w p = w d.
 Proof.
@@ -794,7 +802,7 @@ Section eqbb.
   Theorem roundtrip_equiv_bb : ∃ C', read rsv bbl m = Ok C' ∧ c_name C' = c_name C ∧ inputs (c_g C') = inputs g ∧ outputs (c_g C') = outputs g ∧ c_bbs C' = bbs ∧
     (∀ p, p ∈ of_type g (is_ty BbIn) → ty (c_g C') p = Some BbIn ∧ fanin (c_g C') p = fanin g p) ∧
     (∀ p, p ∈ of_type g (is_ty BbOut) → fanout (c_g C') p = fanout g p) ∧
-    equiv_on_x (outputs g ∪ of_type g (is_ty BbIn)) g (c_g C').
+    equiv_on_x (dom g) g (c_g C').
   Proof.
     destruct read_ok as [C' HC']. exists C'. split; [done|]. split; [rewrite (read_name _ _ _ _ HC'); by destruct Winv as (_ & _ & _ & _ & _ & _ & _ & _ & _ & _ & _ & En & _)|].
     destruct (read_io_items rsv bbl m C' G_io Hids HC') as [Hin' Hout']. rewrite E_dins in Hin'. rewrite E_douts in Hout'. destruct Winv as (_ & Ei & _ & Eo & _). rewrite Ei in Hin'. rewrite Eo in Hout'.
@@ -808,14 +816,17 @@ Section eqbb.
       unfold o in Hfi. destruct (head (elements (fanin g (pin inst q)))) as [w|] eqn:Eh; simpl in Hfi.
       - rewrite (Hfi w eq_refl). destruct (in_conn _ _ _ _ Hd Hq Eh) as (i' & j & Hi' & _ & Hf' & _). unfold fanin at 1. by rewrite Hi'.
       - rewrite Hfi. symmetry. by eapply in_open. }
-    split; [done|]. split.
+    split; [done|].
+    assert (Hpin_out : ∀ p, p ∈ of_type g (is_ty BbOut) → ty (c_g C') p = Some BbOut ∧ fanout (c_g C') p = fanout g p ∧
+               ∀ q, q ∈ fanout g p → ty (c_g C') q = Some Buf ∧ fanin (c_g C') q = {[p]}).
     { intros p (i & Hi & Ht)%elem_of_of_type. unfold is_ty in Ht. apply bool_decide_eq_true in Ht. symmetry in Ht.
       destruct (pin_inst p i Hi (or_intror Ht)) as (t & q & ins & outs & Ht' & -> & Hd & Eps & Hnd & Hins & Houts & [[E _]|[_ Hq]]); [congruence|].
       set (o := cid <$> head (elements (fanout g (pin t.1.1 q)))). assert (Hpc : (q, o) ∈ t.2) by (rewrite Eps; apply elem_of_bbps; right; split; [by apply Houts|done]).
-      pose proof (Hpins t Ht') as Hok. destruct t as [[inst d] ps]. simpl in *. pose proof (bb_ok_out _ _ _ _ _ _ Hok Hnd Hq Hpc) as Hfo.
+      pose proof (Hpins t Ht') as Hok. destruct t as [[inst d] ps]. simpl in *. destruct (bb_ok_out _ _ _ _ _ _ Hok Hnd Hq Hpc) as [Hty Hfo]. split; [done|].
       unfold o in Hfo. destruct (head (elements (fanout g (pin inst q)))) as [w|] eqn:Eh; simpl in Hfo.
-      - rewrite (Hfo w eq_refl). by destruct (out_conn _ _ _ _ Hd Hq Eh) as (-> & _).
-      - rewrite Hfo. symmetry. by eapply out_open. }
+      - destruct (Hfo w eq_refl) as (F1 & F2 & F3). destruct (out_conn _ _ _ _ Hd Hq Eh) as (Efo & _). rewrite F1, Efo. split; [done|]. intros q' ->%elem_of_singleton. done.
+      - rewrite Hfo. pose proof (out_open _ _ _ Hd Hq Eh) as Efo. rewrite Efo. split; [done|]. intros q' Hq'. by apply elem_of_empty in Hq'. }
+    split; [intros p Hp; by destruct (Hpin_out p Hp) as (_ & ? & _)|].
     (* values of the connected input pins in both circuits *)
     assert (Hcp : ∀ p, p ∈ cpins → ∃ i d j, g !! p = Some i ∧ n_ty i = BbIn ∧ n_fi i = {[d]} ∧ g !! d = Some j ∧ n_ty j ≠ BbIn ∧ n_ty j ≠ BbOut ∧ ty (c_g C') p = Some BbIn ∧ fanin (c_g C') p = {[d]}).
     { intros p Hp. unfold cpins in Hp. apply elem_of_dom in Hp as [i Hi]. apply map_filter_lookup_Some in Hi as [Hi [Hti Hne]]. simpl in Hti, Hne.
@@ -871,39 +882,65 @@ Section eqbb.
         assert (Hg : gc_type (n_ty i)) by (rewrite <- Ht; unfold gc_type; auto).
         assert (HnL : n ∈ L'.*1). { apply (in_L' n i Hi Hg). intros q iq Hq Hiq Hty. destruct (reads_pin n i q iq Hi Hq Hiq (or_intror Hty)) as (_ & Hb & _). congruence. }
         destruct (Hnv n HnL) as (i' & Hi' & _ & Hval). assert (i' = i) as -> by congruence. rewrite (Hv1 n i Hi) by (rewrite <- Ht; done). rewrite Hval. unfold node_val. by rewrite <- Ht.
-      + intros n [(i & Hi & Ho)%elem_of_outputs|Hn]%elem_of_union.
-        * apply (Hv1 n i Hi); intros Ht; rewrite (e_noout _ _ HC n i Hi) in Ho; auto; discriminate.
-        * apply elem_of_of_type in Hn as (i0 & Hi0 & Ht0). unfold is_ty in Ht0. apply bool_decide_eq_true in Ht0. symmetry in Ht0. destruct (decide (n_fi i0 = ∅)) as [E0|Hne0].
+      + intros n [i0 Hi0]%elem_of_dom. destruct (decide (n_ty i0 = BbIn)) as [Ht0|Hnin].
+        * destruct (decide (n_fi i0 = ∅)) as [E0|Hne0].
           { unfold v. rewrite Hi0, Ht0, E0, elements_empty. done. }
           assert (Hn : n ∈ cpins) by (unfold cpins; apply elem_of_dom; exists i0; by apply map_filter_lookup_Some).
           destruct (Hcp n Hn) as (i & d & j & Hi & Hti & Hfi & Hj & H1 & H2 & Hty' & Hfi'). unfold v. rewrite Hi, Hti, Hfi.
           assert (Eh : head (elements ({[d]} : gset string)) = Some d) by (by rewrite elements_singleton). rewrite Eh. symmetry. by apply (pin_val (c_g C') w n d).
+        * destruct (decide (n_ty i0 = BbOut)) as [Ht0|Hnout]; [|by apply (Hv1 n i0 Hi0)].
+          unfold v. rewrite Hi0, Ht0. destruct (head (elements (fanout g n))) as [q|] eqn:Eh; [|done].
+          destruct (Hpin_out n) as (_ & _ & Hq); [apply elem_of_of_type; exists i0; split; [done|]; rewrite Ht0; done|].
+          destruct (Hq q) as [F2 F3]; [by apply elem_of_elements, head_elem|]. by apply (buf_val (c_g C') w q n).
     - intros v Hcv [X HX].
       destruct (read_conv_items rsv bbl m C' NN HNN G_den G_conv xd_nodup HC' v X) as (w & Cw & Aw).
       { intros n d Hin. rewrite E_drivers in Hin. destruct (S_drv _ _ Hin) as (i & Hi & Hg & Hsem). rewrite Hsem.
         apply (proj1 (node_ok_val v X n i Hg (e_gate _ _ HC n i Hi))). split; [by apply Hcv|]. intros Ecx. apply HX. apply elem_of_of_type. exists i. split; [done|]. rewrite Ecx. done. }
-      set (upins := dom (filter (λ p : string * ninfo, n_ty p.2 = BbIn ∧ n_fi p.2 = ∅) g) : gset string).
-      assert (Hup : ∀ p, p ∈ upins ↔ ∃ i, g !! p = Some i ∧ n_ty i = BbIn ∧ n_fi i = ∅).
-      { intros p. unfold upins. rewrite elem_of_dom. split; [intros [i Hi]; apply map_filter_lookup_Some in Hi as [? [? ?]]; eauto|intros (i & ? & ? & ?); exists i; by apply map_filter_lookup_Some]. }
+      set (upins := dom (filter (λ p : string * ninfo, (n_ty p.2 = BbIn ∧ n_fi p.2 = ∅) ∨ (n_ty p.2 = BbOut ∧ fanout g p.1 = ∅)) g) : gset string).
+      assert (Hup : ∀ p, p ∈ upins ↔ ∃ i, g !! p = Some i ∧ ((n_ty i = BbIn ∧ n_fi i = ∅) ∨ (n_ty i = BbOut ∧ fanout g p = ∅))).
+      { intros p. unfold upins. rewrite elem_of_dom. split; [intros [i Hi]; apply map_filter_lookup_Some in Hi as [? ?]; eauto|intros (i & ? & ?); exists i; by apply map_filter_lookup_Some]. }
       set (w' := (λ n, if bool_decide (n ∈ upins) then v n else w n) : val).
       assert (Hw'1 : ∀ n, n ∉ upins → w' n = w n) by (intros n Hn; unfold w'; by rewrite bool_decide_eq_false_2).
       exists w'. split.
       + intros y j Hy. destruct (decide (y ∈ upins)) as [Hyu|Hyu].
-        * apply Hup in Hyu as (i & Hi & Hti & Hfi). destruct (Hpin_in y) as [Hty' Hfi']; [apply elem_of_of_type; exists i; split; [done|]; rewrite Hti; done|].
-          unfold ty, fanin in Hty', Hfi'. rewrite Hy in Hty', Hfi'. simpl in Hty', Hfi'. injection Hty' as Hty'. unfold fanin in Hfi'. rewrite Hi in Hfi'. simpl in Hfi'.
-          unfold node_ok, is_free. rewrite Hty', Hfi', Hfi. by rewrite bool_decide_eq_true_2.
-        * apply (node_ok_ext w w' y y j); [by rewrite Hw'1| |by apply Cw]. intros f Hf. symmetry. apply Hw'1. intros (i & Hi & Hti & Hfi)%Hup.
-          destruct (pin_inst f i Hi (or_introl Hti)) as (t & q & ins & outs & Ht' & -> & Hd & Eps & Hnd & Hins & Houts & [[_ Hq]|[E _]]); [|congruence].
-          exact (Hnoread y j Hy t q Ht' Hq Hf).
-      + intros n [(i & Hi & Ho)%elem_of_outputs|Hn]%elem_of_union.
-        * rewrite Hw'1. { apply Aw. apply NN_spec. exists i. split; [done|]. split; intros Ht; rewrite (e_noout _ _ HC n i Hi) in Ho; auto; discriminate. }
-          intros (i' & Hi' & Hti' & _)%Hup. assert (i' = i) as -> by congruence. rewrite (e_noout _ _ HC n i Hi) in Ho; auto; discriminate.
-        * apply elem_of_of_type in Hn as (i0 & Hi0 & Ht0). unfold is_ty in Ht0. apply bool_decide_eq_true in Ht0. symmetry in Ht0. destruct (decide (n_fi i0 = ∅)) as [E0|Hne0].
+        * apply Hup in Hyu as (i & Hi & [[Hti Hfi]|[Hti Hfo]]).
+          -- destruct (Hpin_in y) as [Hty' Hfi']; [apply elem_of_of_type; exists i; split; [done|]; rewrite Hti; done|].
+             unfold ty, fanin in Hty', Hfi'. rewrite Hy in Hty', Hfi'. simpl in Hty', Hfi'. injection Hty' as Hty'. unfold fanin in Hfi'. rewrite Hi in Hfi'. simpl in Hfi'.
+             unfold node_ok, is_free. rewrite Hty', Hfi', Hfi. by rewrite bool_decide_eq_true_2.
+          -- destruct (Hpin_out y) as (Hty' & _); [apply elem_of_of_type; exists i; split; [done|]; rewrite Hti; done|].
+             unfold ty in Hty'. rewrite Hy in Hty'. simpl in Hty'. injection Hty' as Hty'. unfold node_ok, is_free. by rewrite Hty'.
+        * apply (node_ok_ext w w' y y j); [by rewrite Hw'1| |by apply Cw]. intros f Hf. symmetry. apply Hw'1. intros (i & Hi & [[Hti Hfi]|[Hti Hfo]])%Hup.
+          -- destruct (pin_inst f i Hi (or_introl Hti)) as (t & q & ins & outs & Ht' & -> & Hd & Eps & Hnd & Hins & Houts & [[_ Hq]|[E _]]); [|congruence].
+             exact (Hnoread y j Hy t q Ht' Hq Hf).
+          -- destruct (Hpin_out f) as (_ & Hfo' & _); [apply elem_of_of_type; exists i; split; [done|]; rewrite Hti; done|].
+             assert (Hin : y ∈ fanout (c_g C') f) by (apply elem_of_fanout; eauto). rewrite Hfo', Hfo in Hin. by apply elem_of_empty in Hin.
+      + intros n [i0 Hi0]%elem_of_dom. destruct (decide (n_ty i0 = BbIn)) as [Ht0|Hnin].
+        * destruct (decide (n_fi i0 = ∅)) as [E0|Hne0].
           { unfold w'. rewrite bool_decide_eq_true_2; [done|]. apply Hup. eauto. }
           assert (Hn : n ∈ cpins) by (unfold cpins; apply elem_of_dom; exists i0; by apply map_filter_lookup_Some).
-          rewrite Hw'1 by (intros (i' & Hi' & _ & Hfi')%Hup; congruence).
+          rewrite Hw'1 by (intros (i' & Hi' & [[_ Hfi']|[Hti' _]])%Hup; congruence).
           destruct (Hcp n Hn) as (i & d & j & Hi & Hti & Hfi & Hj & H1 & H2 & Hty' & Hfi'). rewrite (pin_val (c_g C') w n d Cw Hty' Hfi'). rewrite Aw by (apply NN_spec; eauto).
           symmetry. apply (pin_val g v n d Hcv); [unfold ty; rewrite Hi; simpl; by rewrite Hti|unfold fanin; rewrite Hi; simpl; exact Hfi].
+        * destruct (decide (n_ty i0 = BbOut)) as [Ht0|Hnout].
+          -- destruct (decide (fanout g n = ∅)) as [E0|Hne0].
+             { unfold w'. rewrite bool_decide_eq_true_2; [done|]. apply Hup. eauto. }
+             rewrite Hw'1 by (intros (i' & Hi' & [[Hti' _]|[_ Hfo']])%Hup; congruence).
+             apply set_choose_L in Hne0 as [q Hq]. destruct (Hpin_out n) as (_ & _ & HqC); [apply elem_of_of_type; exists i0; split; [done|]; rewrite Ht0; done|].
+             destruct (HqC q Hq) as [F2 F3]. rewrite <- (buf_val (c_g C') w q n Cw F2 F3). apply elem_of_fanout in Hq as (jq & Hjq & Hinq).
+             destruct (reads_pin q jq n i0 Hjq Hinq Hi0 (or_intror Ht0)) as (_ & Hbq & Efq). rewrite Aw by (apply NN_spec; exists jq; rewrite Hbq; done).
+             apply (buf_val g v q n Hcv); [unfold ty; rewrite Hjq; simpl; by rewrite Hbq|unfold fanin; rewrite Hjq; simpl; exact Efq].
+          -- rewrite Hw'1 by (intros (i' & Hi' & [[Hti' _]|[Hti' _]])%Hup; congruence). apply Aw. apply NN_spec. eauto.
   Qed.
 End eqbb.
+
+Corollary roundtrip_equiv_bb_ends C beh π m rsv : rteb_clean (c_g C) (c_bbs C) → write C beh π = Ok m → (list_to_set (module_ids m) : gset string) ⊆ rsv →
+  ∃ C', read rsv (map_to_list (c_bbs C)).*2 m = Ok C' ∧ c_name C' = c_name C ∧ inputs (c_g C') = inputs (c_g C) ∧ outputs (c_g C') = outputs (c_g C) ∧ c_bbs C' = c_bbs C ∧
+    (∀ p, p ∈ of_type (c_g C) (is_ty BbIn) → ty (c_g C') p = Some BbIn ∧ fanin (c_g C') p = fanin (c_g C) p) ∧
+    (∀ p, p ∈ of_type (c_g C) (is_ty BbOut) → fanout (c_g C') p = fanout (c_g C) p) ∧
+    equiv_on_x (outputs (c_g C) ∪ of_type (c_g C) (is_ty BbIn)) (c_g C) (c_g C').
+Proof.
+  intros HC Hw Hids. destruct (roundtrip_equiv_bb C beh π m rsv HC Hw Hids) as (C' & H1 & H2 & H3 & H4 & H5 & H6 & H7 & H8).
+  exists C'. repeat (split; [done|]). eapply equiv_on_x_mono; [|exact H8].
+  intros n [(i & Hi & _)%elem_of_outputs|(i & Hi & _)%elem_of_of_type]%elem_of_union; apply elem_of_dom; eauto.
+Qed.
 
